@@ -8,7 +8,7 @@ namespace MjProof.CType
 /-! ### digits -/
 
 /-- characters printed by `intStr` -/
-def numChar (c : Ch) : Bool := (digitVal c).isSome || c == 45
+def numChar (c : Nat) : Bool := (digitVal c).isSome || c == 45
 
 theorem digitVal_digitChar : ∀ d, d < 10 → digitVal (digitChar d) = some d := by decide
 
@@ -16,7 +16,7 @@ theorem numChar_digitChar (d : Nat) : numChar (digitChar d) = true := by
   unfold digitChar
   split <;> decide
 
-theorem numChar_facts {c : Ch} (h : numChar c = true) :
+theorem numChar_facts {c : Nat} (h : numChar c = true) :
     isWs c = false ∧ c ≠ 93 ∧ c ≠ 91 ∧ c ≠ 40 ∧ c ≠ 41 ∧ c ≠ 42 := by
   simp only [numChar, Bool.or_eq_true, beq_iff_eq] at h
   have hn : (48 ≤ c ∧ c ≤ 57) ∨ c = 45 := by
@@ -203,7 +203,7 @@ theorem extentsStr_no_paren (e : List Int) : 40 ∉ extentsStr e ∧ 41 ∉ exte
     first | (revert h; decide) | skip
   all_goals (have := numChar_facts h; simp at this)
 
-theorem takeWhile_append_stop {p : Ch → Bool} {a : Str} {x : Ch} {b : Str}
+theorem takeWhile_append_stop {p : Nat → Bool} {a : Str} {x : Nat} {b : Str}
     (ha : ∀ c ∈ a, p c = true) (hx : p x = false) :
     (a ++ x :: b).takeWhile p = a ∧ (a ++ x :: b).dropWhile p = x :: b := by
   induction a with
